@@ -10,6 +10,7 @@
 From Coq Require Import ZArith List.
 From Verif Require Import Lib.Params Spec.Hades Spec.GoldRef Model.GoldPoseidon Proofs.GoldConforms.
 From Verif Require Gen.GoldTables.
+From Verif Require Gen.BigIntLoops Proofs.BigIntEqLoopsGold Model.Outcome.
 Import ListNotations.
 Local Open Scope Z_scope.
 
@@ -57,5 +58,20 @@ Theorem C10_known_answers_on_reference :
   = [4330397376401421145; 14124799381142128323; 8742572140681234676; 14345658006221440202].
 Proof. exact gold_kat_zero. Qed.
 
+(* ---- the LOOPS of the Go source: tools/bigintgen re-translates the whole functions, loops
+   included, at every run (Gen/BigIntLoops.v: a Go `for` becomes a fold over its index range
+   with the loop-carried variables as accumulator); the translated function equals the model
+   the theorems above are about ---- *)
+Theorem C10_loops_are_the_source : forall inp cap, length inp = 8%nat -> length cap = 4%nat ->
+  BigIntLoops.goldenposeidon_Hash (GoldPoseidon.C GoldTables.c) (GoldPoseidon.S GoldTables.s)
+    (GoldPoseidon.M GoldTables.mcirc GoldTables.mdiag 12) (GoldPoseidon.P GoldTables.p) inp cap
+  = Outcome.Ok (GoldPoseidon.Hash GoldTables.c GoldTables.s GoldTables.p GoldTables.mcirc GoldTables.mdiag 8 22 12 inp cap).
+Proof.
+  intros inp cap Hi Hc.
+  exact (BigIntEqLoopsGold.gen_goldenposeidon_Hash_model_eq _ _ _ _ GoldTables.c GoldTables.s GoldTables.p
+           GoldTables.mcirc GoldTables.mdiag inp cap eq_refl eq_refl eq_refl eq_refl Hi Hc).
+Qed.
+
 Print Assumptions C10_mds_is_the_statement_matrix.
 Print Assumptions C10_gold_poseidon_conforms_partial.
+Print Assumptions C10_loops_are_the_source.
